@@ -33,6 +33,8 @@ type Tokenizer struct {
 	mi        int
 	num       gen.Number
 	rn        rune
+	hi        rune // pending high surrogate of a \uXXXX escape
+	hiEnd     int  // len(tmp) right after its U+FFFD was appended
 	mode      string
 	exkey     bool
 
@@ -70,6 +72,7 @@ func (t *Tokenizer) Parse(buf []byte, handler oj.TokenHandler) (err error) {
 		t.starts = t.starts[:0]
 	}
 	t.exkey = false
+	t.hi = 0
 	t.noff = -1
 	t.line = 1
 	t.mode = valueMap
@@ -103,6 +106,7 @@ func (t *Tokenizer) Load(r io.Reader, handler oj.TokenHandler) (err error) {
 		t.starts = t.starts[:0]
 	}
 	t.exkey = false
+	t.hi = 0
 	t.noff = -1
 	t.line = 1
 	t.mi = 0
@@ -393,6 +397,7 @@ func (t *Tokenizer) tokenizeBuffer(buf []byte, last bool) {
 			}
 			off += i
 		case strQuote:
+			t.hi = 0
 			t.addString(string(t.tmp))
 		case numZero:
 			t.mode = zeroMap
@@ -438,8 +443,19 @@ func (t *Tokenizer) tokenizeBuffer(buf []byte, last bool) {
 				if len(t.runeBytes) < 6 {
 					t.runeBytes = make([]byte, 6)
 				}
+				if 0xDC00 <= t.rn && t.rn <= 0xDFFF && t.hi != 0 && t.hiEnd == len(t.tmp) {
+					// a low surrogate directly after a high one: replace the
+					// U+FFFD written for the high half by the combined rune
+					t.tmp = t.tmp[:t.hiEnd-3]
+					t.rn = 0x10000 + (t.hi-0xD800)<<10 + (t.rn - 0xDC00)
+				}
+				t.hi = 0
 				n := utf8.EncodeRune(t.runeBytes, t.rn)
 				t.tmp = append(t.tmp, t.runeBytes[:n]...)
+				if 0xD800 <= t.rn && t.rn <= 0xDBFF {
+					t.hi = t.rn
+					t.hiEnd = len(t.tmp)
+				}
 				t.mode = stringMap
 			}
 			continue
